@@ -147,6 +147,21 @@ var tops = []prod{
 	{"from_table", T, T, "SELECT * FROM ", "", ""},
 	{"join_table", T, T, "SELECT * FROM t JOIN ", " ON 1 = 1", ""},
 	{"delete_using", T, T, "DELETE FROM t USING ", "", ""},
+	{"replace_values", E, E, "REPLACE INTO t VALUES (", ")", ""},
+	{"on_duplicate_key_set", E, E, "INSERT INTO t VALUES (1) ON DUPLICATE KEY UPDATE a = ", "", ""},
+	{"partition_less_than", E, E, "CREATE TABLE n (a int) PARTITION BY RANGE (a) (PARTITION p0 VALUES LESS THAN (", "))", ""},
+	{"partition_in", E, E, "CREATE TABLE n (a int) PARTITION BY LIST (a) (PARTITION p0 VALUES IN (1, ", "))", ""},
+	{"partition_from", E, E, "CREATE TABLE n (a int) PARTITION BY RANGE (a) (PARTITION p0 VALUES FROM (", ") TO (9))", ""},
+	{"partition_to", E, E, "CREATE TABLE n (a int) PARTITION BY RANGE (a) (PARTITION p0 VALUES FROM (1) TO (", "))", ""},
+	{"merge_insert_values", E, E, "MERGE INTO t USING s ON 1 = 1 WHEN NOT MATCHED THEN INSERT (a) VALUES (", ")", ""},
+	{"merge_source_query", Q, Q, "MERGE INTO t USING (", ") s ON 1 = 1 WHEN MATCHED THEN DELETE", ""},
+	{"alter_add_column_default", E, E, "ALTER TABLE t ADD COLUMN c int DEFAULT (", ")", ""},
+	{"alter_add_check", E, E, "ALTER TABLE t ADD CONSTRAINT ck CHECK (", ")", ""},
+	{"insert_returning", E, E, "INSERT INTO t VALUES (1) RETURNING ", "", ""},
+	{"update_returning", E, E, "UPDATE t SET a = 1 RETURNING ", "", ""},
+	{"table_check_constraint", E, E, "CREATE TABLE n (a int, CONSTRAINT ck CHECK (", "))", ""},
+	{"with_insert", Q, Q, "WITH c AS (", ") INSERT INTO t SELECT 1 FROM c", ""},
+	{"with_delete_where", E, E, "WITH c AS (SELECT 1) DELETE FROM t WHERE ", "", ""},
 }
 
 func terminal(k kind) string {
